@@ -309,8 +309,24 @@ func TestBlockRoundTrip(t *testing.T) {
 			bl.Transactions = []*types.Transaction{}
 		default: // body consistent with the header's hash list
 			h.Transactions = []common.Hashes{}
-			for i, n := 0, rapid.IntRange(1, 3).Draw(t, "nbody"); i < n; i++ {
-				tx, _ := genTxA(t)
+			n := rapid.IntRange(1, 3).Draw(t, "nbody")
+			if rapid.IntRange(0, 19).Draw(t, "fullBlock") == 0 {
+				// a block as full as the pool packs it (200 transactions), one short of it, and beyond
+				n = rapid.SampledFrom([]int{64, 199, 200, 201, 256, 300}).Draw(t, "nbodyFull")
+			}
+			var proto *types.Transaction
+			for i := 0; i < n; i++ {
+				var tx *types.Transaction
+				if n > 3 && i > 2 {
+					// large bodies: generated head, then cheap variations of one generated transaction
+					c := *proto
+					c.Nonce = uint64(i)
+					c.Hash = c.GenHash()
+					tx = &c
+				} else {
+					tx, _ = genTxA(t)
+					proto = tx
+				}
 				bl.Transactions = append(bl.Transactions, tx)
 				h.Transactions = append(h.Transactions, tx.GenHashes())
 			}
